@@ -70,7 +70,7 @@ CHECKS['C03'] = {
     'unproved': ['evaluate arms FunctionCall (all functions), TypeConversion, Aggregate', 'parser_tree_converter lowering, projection naming'],
 }
 CHECKS['C09'] = {
-    'verus_units': ['eval', 'follow', 'select', 'engine', 'extract', 'parser', 'executor', 'aggregate', 'join'],
+    'verus_units': ['eval', 'follow', 'select', 'engine', 'extract', 'parser', 'executor', 'aggregate', 'aggdispatch', 'join'],
     'only_safety': True,
     'clause_prefixes': ['c09'],
     'technique': 'contract-based deductive verification (Verus): absence of arithmetic overflow, division by zero, failed callee preconditions (unwrap, indexing, unreachable!) in every extracted function',
@@ -198,15 +198,15 @@ CHECKS['C19'] = {
 }
 
 CHECKS['C04'] = {
-    'verus_units': ['aggregate'],
+    'verus_units': ['aggregate', 'aggdispatch'],
     'clause_prefixes': ['c04', 'value.modify', 'value.map-numeric', 'value.default'],
     'technique': 'contract-based deductive verification (Verus): GroupAggregator::default / update (all arms) / is_null, ensure_sum_fits and Value::modify_same_type_numeric_nullable / map_numeric extracted from /repo against step functions written from the property text',
-    'claim': 'Proof (fold kernel only) for all states and values that one update step of each running aggregate is exactly the documented step: SUM / AVG / STDDEV-VARIANCE bookkeeping add the value exactly or report an error (never wrap), the first value only initialises, AVG shows sum/count, PERCENTILE collects every value, BOOL_AND / BOOL_OR combine two-valued, COUNT(DISTINCT) counts a value only at its first occurrence; the unimplemented!() arms of default are unreachable under its precondition. NOT decided: the assembly of the result table (update_aggregates dispatch per group key, execute_result, extract_result_rows_by_column, accept_group) - "one row per group, no cell in another group\'s row", HAVING and the PERCENTILE index are outside the claim.',
+    'claim': 'Proof (fold kernel and per-group dispatch) for all states and values that one update step of each running aggregate is exactly the documented step and that update_aggregate folds a row into the cell of ITS group and aggregate index only (get_group: an existing cell is returned as it is, the default is computed only for a missing cell; COUNT / COUNT(DISTINCT) add one exactly for qualifying rows; MIN / MAX by value order; NULL arguments never wipe an accumulated value; ARRAY_AGG appends in arrival order; STRING_AGG joins with the delimiter); execute_update leaves the state untouched for rows that fail WHERE. Step level: SUM / AVG / STDDEV-VARIANCE bookkeeping add the value exactly or report an error (never wrap), the first value only initialises, AVG shows sum/count, PERCENTILE collects every value, BOOL_AND / BOOL_OR combine two-valued, COUNT(DISTINCT) counts a value only at its first occurrence; the unimplemented!() arms of default are unreachable under its precondition. NOT decided: update_aggregates (group key evaluation, loop over the aggregates, HAVING aggregates), the assembly of the result table (execute_result, extract_result_rows_by_column, accept_group) - "one row per group, no cell in another group\'s row", HAVING and the PERCENTILE index are outside the claim.',
     'note': 'Trusted: HashSet<Value> as a set under Value equality (VValueSet), f64 arithmetic and chrono Duration arithmetic as uninterpreted functions, the variance formula closure and the INTERVAL squaring closure are stubbed (assumed). Defects seen by reading only in the unreached code (column shift when an aggregate has no entry for a group, DISTINCT only under HAVING, PERCENTILE(1.0)) are recorded in DESIGN.md, not raised by this check.',
     'level': 'proof',
     'explanation': 'sum_step etc. are the semantic steps; C15 lemmas lift them to order-insensitivity.',
     'trusted': COMMON_TRUST + ['std HashSet<Value> / BTreeMap / HashMap behaviour', 'float and interval arithmetic uninterpreted'],
-    'unproved': ['AggregateExecutionEngine::update_aggregates / update_aggregate (per-group dispatch)', 'execute_result, extract_result_rows_by_column, accept_group', 'GroupAggregator::update_value (PERCENTILE index, sort)'],
+    'unproved': ['AggregateExecutionEngine::update_aggregates (key evaluation, loop, HAVING closure)', 'execute_result, extract_result_rows_by_column, accept_group', 'GroupAggregator::update_value (PERCENTILE index, sort)'],
 }
 CHECKS['C15'] = {
     'verus_units': ['aggregate'],
